@@ -76,13 +76,32 @@ func argumentsGetOwnProperty(obj *object, name string) *property {
 	return prop
 }
 
+// 10.6 [[DefineOwnProperty]].
 func argumentsDefineOwnProperty(obj *object, name string, descriptor property, throw bool) bool {
-	if _, exists := obj.value.(argumentsObject).get(name); exists {
+	if current, exists := obj.value.(argumentsObject).get(name); exists {
+		// The property itself holds a stale value while the index is mapped to
+		// its parameter: bring it up to date, the mapping may end below.
+		if stored := objectGetOwnProperty(obj, name); stored != nil {
+			if _, isData := stored.value.(Value); isData {
+				stored.value = current
+				obj.property[name] = *stored
+			}
+		}
 		if !objectDefineOwnProperty(obj, name, descriptor, false) {
 			return obj.runtime.typeErrorResult(throw)
 		}
+		if _, isAccessor := descriptor.value.(propertyGetSet); isAccessor {
+			// step 5.a: an accessor ends the mapping
+			obj.value.(argumentsObject).delete(name)
+			return true
+		}
 		if value, valid := descriptor.value.(Value); valid {
+			// step 5.b.i
 			obj.value.(argumentsObject).put(name, value)
+		}
+		if descriptor.writeSet() && !descriptor.writable() {
+			// step 5.b.ii: a read-only element no longer follows its parameter
+			obj.value.(argumentsObject).delete(name)
 		}
 		return true
 	}
